@@ -9,6 +9,10 @@ fn rebuild(e: &E, mut ch: Vec<E>) -> E {
         E::Lit(_) | E::FailLit(_) | E::Var(_) | E::Prog(_) | E::Now(_) => e.clone(),
         E::Call(s, a) => E::Call(*s, a.iter().map(|_| next()).collect()),
         E::NCall(n, a) => E::NCall(n.clone(), a.iter().map(|_| next()).collect()),
+        E::MCall(_, n, a) => {
+            let r = next();
+            E::MCall(Box::new(r), n.clone(), a.iter().map(|_| next()).collect())
+        }
         E::Not(_) => E::Not(Box::new(next())),
         E::BoolOf(_) => E::BoolOf(Box::new(next())),
         E::Has(_) => E::Has(Box::new(next())),
